@@ -120,8 +120,8 @@ func replay(path string) {
 	if err := json.Unmarshal(b, &f); err != nil {
 		ev.InfraError("replay: cannot parse %s: %v", path, err)
 	}
-	if strings.HasPrefix(f.Artefact.Balancer, "kfake") {
-		fmt.Println("(kfake artefact: replayed by the in-package harness above)")
+	if strings.HasPrefix(f.Artefact.Balancer, "kfake") || strings.HasPrefix(f.Artefact.Balancer, "sticky-engine") {
+		fmt.Println("(in-package artefact: replayed by the in-package harness above)")
 		return
 	}
 	if f.Artefact.Case == nil {
@@ -259,6 +259,7 @@ func main() {
 		"the leader's partition-count map contains exactly the existing topics some member subscribes to (what balanceGroup builds from metadata)",
 		"ConsumerBalancer.partitionRacks (unexported, set by balanceGroup) is set through reflection; everything else goes through the public GroupBalancer API",
 		"Go map iteration order inside the balancers is not controlled: each input is run once per count-map insertion order, the oracle is order-independent",
+		"sticky engine topic numbering follows Go map iteration (a rotation of insertion order from a random slot for <=8 entries) and cannot be fixed through the public API: the public-API sweeps run each input under one or two insertion orders without owning the result; the in-package sticky-engine sweep owns it (real newBalancer retried until the wanted numbering appears, then the real remaining steps of BalanceWithRacks) and its verdicts are per (input, numbering) pair",
 		"kfake: targetAssignment of the previous epoch is conflict-free (it is only ever written by the assignors under test)",
 	)
 
@@ -461,6 +462,51 @@ func main() {
 		}
 	} else {
 		r.NotExhaustive("kfake in-package harness summary not provided (C25_KFAKE_SUMMARY unset)")
+	}
+
+	// sticky engine with owned topic numbering (in-package harness in
+	// pkg/kgo/internal/sticky).
+	if p := os.Getenv("C25_STICKY_SUMMARY"); p != "" {
+		b, err := os.ReadFile(p)
+		if err != nil {
+			ev.InfraError("sticky-engine harness summary missing: %v", err)
+		}
+		var s struct {
+			Evals    int64             `json:"evals"`
+			Inputs   int64             `json:"inputs"`
+			Distinct []uint64          `json:"distinct"`
+			Dropped  int64             `json:"distinct_dropped"`
+			Bound    string            `json:"bound"`
+			Findings []balenum.Finding `json:"findings"`
+			Wall     float64           `json:"wall_s"`
+			Jobs     int               `json:"jobs"`
+			Cut      int               `json:"jobs_cut"`
+		}
+		if err := json.Unmarshal(b, &s); err != nil {
+			ev.InfraError("sticky-engine harness summary unreadable: %v", err)
+		}
+		if s.Evals == 0 {
+			ev.InfraError("sticky-engine harness ran nothing")
+		}
+		r.Evals(s.Evals)
+		for _, h := range s.Distinct {
+			r.DistinctHash(h)
+		}
+		r.Set("sticky_engine_owned_numbering_bound_completed", s.Bound)
+		r.Set("sticky_engine_owned_numbering_inputs", s.Inputs)
+		r.Set("sticky_engine_owned_numbering_evaluations", s.Evals)
+		r.Set("sticky_engine_harness_wall_s", s.Wall)
+		if s.Dropped > 0 {
+			r.Set("sticky_engine_distinct_not_recorded_over_cap", s.Dropped)
+		}
+		if s.Cut > 0 {
+			r.NotExhaustive(fmt.Sprintf("sticky-engine harness time slice reached: %d of %d jobs (hoarder position x partition counts x first member's subscription) not run", s.Cut, s.Jobs))
+		}
+		for _, f := range s.Findings {
+			r.Violation(f.Key, fmt.Sprintf("%s (%d (input, numbering) pairs hit this class; smallest shown)", f.What, f.Count), f.Artefact)
+		}
+	} else {
+		r.NotExhaustive("sticky-engine in-package harness summary not provided (C25_STICKY_SUMMARY unset)")
 	}
 
 	for _, f := range coll.Findings() {
